@@ -452,6 +452,7 @@ class Splicer:
             if spec is None:
                 continue
             t = ''
+            t += self.fmt_clauses('invariant_except_break', [_cl(c) for c in spec.get('invariant_except_break', [])], 'invariant', fnkey + '#loop%d' % i, f, tags, indent)
             t += self.fmt_clauses('invariant', [_cl(c) for c in spec.get('invariant', [])], 'invariant', fnkey + '#loop%d' % i, f, tags, indent)
             t += self.fmt_clauses('ensures', [_cl(c) for c in spec.get('ensures', [])], 'loop_ensures', fnkey + '#loop%d' % i, f, tags, indent)
             if spec.get('decreases'):
@@ -478,6 +479,24 @@ class Splicer:
             spec = (fc.closures.get(i) if fc else None)
             if spec is None:
                 continue
+            if spec.get('bind'):
+                # R12: a closure literal passed as a call argument is bound to a local in a block that wraps
+                # the call, so that ghost code can name it (closure construction has no side effects)
+                if not cl.get('call'):
+                    raise ExtractError('lost anchor: closure #%d of %s is not a direct call argument' % (i, fnkey))
+                name = spec['bind']
+                params = spec.get('params') or data[cl['or1'][1]:cl['or2'][0]].decode()
+                ret_ann = (' -> (%s)' % spec['ret']) if spec.get('ret') else ''
+                t = self.fmt_clauses('requires', [_cl(c) for c in spec.get('requires', [])], 'requires', fnkey + '#closure%d' % i, f, tags, indent)
+                t += self.fmt_clauses('ensures', [_cl(c) for c in spec.get('ensures', [])], 'ensures', fnkey + '#closure%d' % i, f, tags, indent)
+                body = data[cl['body'][0]:cl['body'][1]].decode()
+                if not cl['body_is_block']:
+                    body = '{ ' + body + ' }'
+                ctext = '|%s|%s\n%s%s%s' % (params, ret_ann, t, indent[4:], body)
+                dele(cl['span'][0], cl['span'][1], 'R12', name)
+                ins(cl['call'][0], '{ let %s = %s; let __r_%s = ' % (name, ctext, name), {'rule': 'R12'})
+                ins(cl['call'][1], '; %s __r_%s }' % (spec.get('after_call', ''), name), {'rule': 'R12'})
+                continue
             if 'params' in spec:
                 s = cl['or1'][1]
                 e = cl['or2'][0]
@@ -486,9 +505,16 @@ class Splicer:
             t += self.fmt_clauses('requires', [_cl(c) for c in spec.get('requires', [])], 'requires', fnkey + '#closure%d' % i, f, tags, indent)
             t += self.fmt_clauses('ensures', [_cl(c) for c in spec.get('ensures', [])], 'ensures', fnkey + '#closure%d' % i, f, tags, indent)
             if t:
+                ret_ann = spec.get('ret')
+                if ret_ann and not cl['has_output']:
+                    ins(cl['or2'][1], ' -> (%s)' % ret_ann, {'rule': 'R8c'})
                 if not cl['body_is_block']:
-                    raise ExtractError('closure #%d of %s has a non-block body; cannot attach a contract' % (i, fnkey))
-                ins(cl['body'][0], '\n' + t + indent[4:], {'contract': fnkey + '#closure%d' % i})
+                    # an expression body gets braces so that the contract can precede it (R8c)
+                    ins(cl['body'][0], '\n' + t + indent[4:] + '{ ', {'contract': fnkey + '#closure%d' % i})
+                    ins(cl['body'][1], ' }', {'rule': 'R8c'})
+                    self.g.count('R8c')
+                else:
+                    ins(cl['body'][0], '\n' + t + indent[4:], {'contract': fnkey + '#closure%d' % i})
         # R3: or-pattern + guard
         for arm in r['arms']:
             pat = data[arm['pat'][0]:arm['pat'][1]].decode()
